@@ -24,7 +24,7 @@ from . import exprsem, relmodel
 from .relmodel import Tab
 from .symx import SymInt, Skip, zint
 
-UNARY = ("calc", "proj", "sel", "dedup", "sort", "slice", "mat", "xfer", "tag", "proc", "cust")
+UNARY = ("calc", "proj", "sel", "dedup", "sort", "slice", "mat", "xfer", "tag", "proc", "cust", "xferp")
 
 
 @dataclasses.dataclass(frozen=True)
@@ -105,7 +105,8 @@ class Env:
         from lsst.daf.relation import LeafRelation, iteration
 
         tags = [self.tags[c] for c in cols]
-        real_rows = [{self.tags[c]: r[c] for c in cols} for r in rows]
+        # a row is a mapping: the order in which it lists its columns carries no meaning, so the rows list them in different orders
+        real_rows = [{self.tags[c]: r[c] for c in (cols if i % 2 == 0 else tuple(cols)[::-1])} for i, r in enumerate(rows)]
         if payload is None:
             if kind == "seq":
                 payload = iteration.RowSequence(real_rows)
@@ -196,7 +197,7 @@ def expression_history(env, *nodes):
                 pass
 
 
-_OPS = ("leaf", "calc", "proj", "sel", "dedup", "sort", "slice", "chain", "join", "mat", "xfer", "tag", "proc", "cust")
+_OPS = ("leaf", "calc", "proj", "sel", "dedup", "sort", "slice", "chain", "join", "mat", "xfer", "tag", "proc", "cust", "xferp")
 _USER_MARKER = []
 _USER_FILTER = []
 _HENGINE = []
@@ -381,6 +382,20 @@ def _build(node, env, memo):
         r = build(node[1], env, memo).materialized(name=node[2] if len(node) > 2 else None)
     elif op == "xfer":
         r = build(node[1], env, memo).transferred_to(env.engines[node[2]])
+    elif op == "xferp":
+        # the payload-attaching form of the documented entry point Engine.transfer (what a Processor-style rebuild of a tree uses)
+        from lsst.daf.relation import iteration
+
+        t = build(node[1], env, memo)
+        if node[2] == "sq":
+            import sqlalchemy as sa
+            from lsst.daf.relation import sql
+
+            ca = {c: sa.Column(c.qualified_name, sa.Integer) for c in t.columns}
+            pl = sql.Payload(from_clause=sa.Table(f"upload_{len(memo)}", sa.MetaData(), *ca.values()), columns_available=ca)
+        else:
+            pl = iteration.RowSequence([])
+        r = env.engines[node[2]].transfer(t, payload=pl)
     elif op == "tag":
         r = user_marker_class()(target=build(node[1], env, memo))
     elif op == "cust":
@@ -421,7 +436,7 @@ def _sem_seq(node, env, prefer):
         if node[1] in DECLARED_COLS and set(t.cols) > set(DECLARED_COLS[node[1]]):
             t = relmodel.project(t, DECLARED_COLS[node[1]])  # the table offers more columns than the relation has
         return t
-    if op in ("mat", "xfer", "tag", "proc", "cust"):
+    if op in ("mat", "xfer", "tag", "proc", "cust", "xferp"):
         return _sem_seq(node[1], env, prefer)
     if op == "chain":
         a, b = _sem_seq(node[1], env, prefer), _sem_seq(node[2], env, prefer)
@@ -627,7 +642,7 @@ def pyeval(node, leafrows, bind, tags, prefer="l"):
         if node[1] in DECLARED_COLS and all(set(r) > set(DECLARED_COLS[node[1]]) for r in leafrows[node[1]]):
             return [{c: r[c] for c in DECLARED_COLS[node[1]]} for r in leafrows[node[1]]]
         return [dict(r) for r in leafrows[node[1]]]
-    if op in ("mat", "xfer", "tag", "proc", "cust"):
+    if op in ("mat", "xfer", "tag", "proc", "cust", "xferp"):
         return pyeval(node[1], leafrows, bind, tags, prefer)
     if op == "chain":
         return pyeval(node[1], leafrows, bind, tags, prefer) + pyeval(node[2], leafrows, bind, tags, prefer)
@@ -701,6 +716,8 @@ def fmt(node):
         return f"{fmt(node[1])}.to[{node[2]}]"
     if op == "tag":
         return f"{fmt(node[1])}.tag"
+    if op == "xferp":
+        return f"{fmt(node[1])}.to[{node[2]} with payload]"
     if op == "proc":
         return f"{fmt(node[1])}.processed"
     if op == "cust":
@@ -769,7 +786,7 @@ def cols_of(node, leafcols):
     op = node[0]
     if op == "leaf":
         return frozenset(leafcols[node[1]])
-    if op in ("mat", "xfer", "tag", "proc", "cust"):
+    if op in ("mat", "xfer", "tag", "proc", "cust", "xferp"):
         return cols_of(node[1], leafcols)
     if op == "chain":
         a, b = cols_of(node[1], leafcols), cols_of(node[2], leafcols)
